@@ -29,6 +29,10 @@ class PyVC(ExprMixin, CallMixin, StmtMixin, Engine):
         for cname in sorted(self.src.classes):
             if cname not in self.exc_classes and self.src.exception_is_subclass(cname, "BaseException"):
                 self.exc_classes.append(cname)
+        self.src.ext_exc = dict(C.EXT_EXC)
+        for cname in sorted(C.EXT_EXC):
+            if cname not in self.exc_classes:
+                self.exc_classes.append(cname)
         for c in self.exc_classes:
             self.u.class_id(c)
         self.inline_stack = []
